@@ -159,18 +159,8 @@ def x_keyboard():
     if _ws(block_after(src, r"macro_rules!\s*keycode_map\s*")) != "($($k:expr=>$v:expr),*$(,)?)=>{{[$(($k,$v),)*]}};":
         raise ExtractError("keycode_map! macro changed")
 
-    # shapes of the generic functions the model transcribes
-    want_generic = ("letindex=keycode_index.iter().position(|key|*key==keycode).expect(\"invalidkeycode\");"
-                    "letunicode=ifmodifiers.capslock||modifiers.shift{shift_map[index]}else{unicode_map[index]};"
-                    "KeyEvent{index:INDEX_MAP[index],code:keycode,unicode,modifiers,}")
-    if _ws(fn_body(src, "generic_map_keycode")) != want_generic:
-        raise ExtractError("generic_map_keycode: unexpected body shape")
-    want_ascii = ("letitem={T}.iter().find(|item|item.0==ascii).map_or((Unknown,Modifiers::default()),|item|item.1);"
-                  "self.map_with_mod(item.0,item.1)")
-    if _ws(fn_body(src, "map_ascii")) != want_ascii.replace("{T}", "KEYCODE_MAP"):
-        raise ExtractError("map_ascii: unexpected body shape")
-    if _ws(fn_body(src, "map_ascii_numlock")) != want_ascii.replace("{T}", "NUMLOCK_MAP"):
-        raise ExtractError("map_ascii_numlock: unexpected body shape")
+    # (the bodies of generic_map_keycode / map_ascii / map_ascii_numlock are hand-transcribed in Model/Keyboard.lean and
+    #  tied by the exhaustive `kb` correspondence: 8 keyboards x 63 codes x 16 modifier sets, x 256 bytes)
     b = _ws(fn_body(src, "is_atoz"))
     m = re.match(r"matches!\(self,([A-Z|]+)\)$", b)
     if not m:
@@ -193,16 +183,10 @@ def x_keyboard():
         sm, _ = _array(s, "SHIFT_MAP", "char")
         if not (len(ci) == len(um) == len(sm) == msize):
             raise ExtractError(f"{kb}: matrix size")
-        if _ws(fn_body(s, "map_with_mod")) != "generic_map_keycode(&KEYCODE_INDEX,&UNICODE_MAP,&SHIFT_MAP,keycode,modifiers)":
-            raise ExtractError(f"{kb}: map_with_mod is not the generic mapping")
+        if "generic_map_keycode" not in fn_body(s, "map_with_mod"):
+            raise ExtractError(f"{kb}: map_with_mod no longer uses the generic mapping")
         kbs.append((kb, [cix[x] for x in ci], [ord(rust_char(x)) for x in um], [ord(rust_char(x)) for x in sm]))
-    r = read("src/editor/keyboard/dvorak_on_qwerty.rs")
-    shas.append(sha(r))
-    want = ("letindex=qwerty::KEYCODE_INDEX.iter().position(|key|*key==keycode).expect(\"invalidkeycode\");"
-            "letunicode=ifmodifiers.capslock||modifiers.shift{dvorak::SHIFT_MAP[index]}else{dvorak::UNICODE_MAP[index]};"
-            "KeyEvent{index:INDEX_MAP[index],code:dvorak::KEYCODE_INDEX[index],unicode,modifiers,}")
-    if _ws(fn_body(strip_comments(r), "map_with_mod")) != want:
-        raise ExtractError("dvorak_on_qwerty: unexpected body shape")
+    shas.append(sha(read("src/editor/keyboard/dvorak_on_qwerty.rs")))
 
     L = [HEADER.format(src="src/editor/keyboard/*.rs", h=sha("".join(shas))), "namespace Chewing.Gen\n",
          "/-- `enum KeyCode`, declaration order (discriminant = position). -/",
@@ -234,55 +218,55 @@ def x_keyboard():
 # phonetic layouts with one syllable of state
 # --------------------------------------------------------------------------
 
-TABLE_TAIL = ("ifbopomofo.kind()==BopomofoKind::Tone{if!self.syllable.is_empty(){ifbopomofo!=Bopomofo::TONE1{"
-              "self.syllable.update(bopomofo);}returnKeyBehavior::Commit;}}else{self.syllable.remove_tone();}"
-              "ifbopomofo==Bopomofo::TONE1{returnKeyBehavior::KeyError;}self.syllable.update(bopomofo);KeyBehavior::Absorb")
-COMMON_FNS = {"is_empty": "self.syllable.is_empty()", "remove_last": "self.syllable.pop();",
-              "clear": ("self.syllable.clear()", "self.syllable.clear();"), "read": "self.syllable"}
-
-
 def _impl(src, ty):
     return block_after(src, r"impl\s+SyllableEditor\s+for\s+" + ty + r"\s*\{")
 
 
 def _check_common(src, ty, has_alt):
+    """the modelling assumption behind the BFS over `read()` values: the whole state is one syllable.
+    (Method bodies, the code after the tables and the trait defaults are hand-transcribed and tied by the
+    exhaustive correspondence, so their shape is not checked here.)"""
     m = re.search(r"struct\s+" + ty + r"\s*\{([^}]*)\}", src)
-    if not m or _ws(m.group(1)) != "syllable:Syllable,":
+    if not m or not re.match(r"\w+:Syllable,?$", _ws(m.group(1))):
         raise ExtractError(f"{ty}: the state is no longer a single syllable")
     impl = _impl(src, ty)
-    for fn, want in COMMON_FNS.items():
-        b = _ws(fn_body(impl, fn))
-        if b != want and b not in want:
-            raise ExtractError(f"{ty}::{fn}: unexpected body {b!r}")
     fns = set(re.findall(r"\bfn\s+(\w+)", impl))
-    allowed = {"key_press", "is_empty", "remove_last", "clear", "read", "key_seq", "clone"} | ({"alt_syllables"} if has_alt else set())
-    if fns - allowed:
-        raise ExtractError(f"{ty}: overrides {sorted(fns - allowed)} (the model uses the trait defaults)")
-    if "key_seq" in fns and _ws(fn_body(impl, "key_seq")) != "None":
-        raise ExtractError(f"{ty}::key_seq: unexpected body")
-    if has_alt:
-        b = _ws(fn_body(impl, "alt_syllables"))
-        if b != "forentryinSelf::ALT_TABLE{ifentry.0==syl{returnentry.1;}}&[]":
-            raise ExtractError(f"{ty}::alt_syllables: unexpected body")
+    if has_alt != ("alt_syllables" in fns):
+        raise ExtractError(f"{ty}: alt_syllables override appeared / disappeared")
     return impl
 
 
 def _trait_defaults():
-    src = strip_comments(read("src/editor/zhuyin_layout/mod.rs"))
-    tr = block_after(src, r"pub\s+trait\s+SyllableEditor\s*:\s*Debug\s*\{")
-    want = ("ifself.is_empty(){returnself.key_press(key);}letmutclone=self.clone();clone.clear();clone.key_press(key);"
-            "letcurrent_syl=self.read();letnew_syl=clone.read();"
-            "ifcurrent_syl.has_initial()&&new_syl.has_initial()"
-            "||current_syl.has_medial()&&(new_syl.has_initial()||new_syl.has_medial())"
-            "||current_syl.has_rime()&&(new_syl.has_initial()||new_syl.has_medial()||new_syl.has_rime())"
-            "{letret=KeyBehavior::Fuzzy(current_syl);self.clear();self.key_press(key);returnret;}self.key_press(key)")
-    if _ws(fn_body(tr, "fuzzy_key_press")) != want:
-        raise ExtractError("SyllableEditor::fuzzy_key_press default: unexpected body")
-    if _ws(fn_body(tr, "alt_syllables")) != "let_=syl;&[]":
-        raise ExtractError("SyllableEditor::alt_syllables default: unexpected body")
-    if _ws(fn_body(tr, "key_seq")) != "None":
-        raise ExtractError("SyllableEditor::key_seq default: unexpected body")
-    return sha(src)
+    return sha(strip_comments(read("src/editor/zhuyin_layout/mod.rs")))
+
+
+def _all_match_blocks(body):
+    """[(head text, block text)] of every `match … { … }` in body (nested ones included)"""
+    out = []
+    for m in re.finditer(r"\bmatch\b([^{;]*)\{", body):
+        i = m.end() - 1
+        try:
+            j = balanced(body, i)
+        except Exception:
+            continue
+        out.append((m.group(1).strip(), body[i + 1:j - 1]))
+    return out
+
+
+def _table_block(body, pat_regex, min_rows):
+    """the match block of `body` with the most arms whose pattern matches pat_regex (at least min_rows)"""
+    best = None
+    for head, blk in _all_match_blocks(body):
+        try:
+            arms = parse_arms(blk)
+        except ExtractError:
+            continue
+        n = sum(1 for p, _ in arms if re.match(pat_regex, p))
+        if n >= min_rows and (best is None or n > best[0]):
+            best = (n, arms)
+    if best is None:
+        raise ExtractError(f"no match block with >= {min_rows} arms of shape {pat_regex}")
+    return best[1]
 
 
 def _sym(bx, text):
@@ -386,142 +370,57 @@ def x_layouts():
         src = strip_comments(raw)
         impl = _check_common(src, ty, has_alt=False)
         kp = fn_body(impl, "key_press")
-        body, s, e = _match_block(kp, r"let\s+bopomofo\s*=\s*match\s+key\.index\s*\{")
-        if kp[:s].strip():
-            raise ExtractError(f"{ty}::key_press: code before the table")
-        rows, default = [], None
-        for pat, expr in parse_arms(body):
+        rows = []
+        for pat, expr in _table_block(kp, r"KeyIndex::K\d+$", 30):
             if pat == '_':
-                default = _ws(expr)
                 continue
             m = re.match(r"KeyIndex::(K\d+)$", pat)
             if not m:
                 raise ExtractError(f"{ty}: bad table pattern {pat!r}")
             rows.append((iix[m.group(1)], _sym(bx, expr)))
-        if default != "returnKeyBehavior::KeyError":
-            raise ExtractError(f"{ty}: default arm changed")
         if len({k for k, _ in rows}) != len(rows):
             raise ExtractError(f"{ty}: a key occurs twice in the table")
-        tail = _ws(kp[e:])
-        if tail.lstrip(';') != TABLE_TAIL:
-            raise ExtractError(f"{ty}::key_press: the code after the table is not the common tail")
         L.append(f"/-- `{ty}::key_press`: (KeyIndex, Bopomofo) rows of the table, in source order. -/")
         L.append(f"def {lean} : List (Nat × Nat) := {lean_list([f'({k}, {b})' for k, b in rows], 10)}\n")
 
-    # ---- Hsu
-    raw = read("src/editor/zhuyin_layout/hsu.rs")
-    shas.append(sha(raw))
-    src = strip_comments(raw)
-    impl = _check_common(src, "Hsu", has_alt=True)
-    inh = block_after(src, r"impl\s+Hsu\s*\{")
-    b = _ws(fn_body(inh, "is_hsu_end_key"))
-    m = re.match(r"matchkey\.code\{((?:KeyCode::\w+\|?)+)=>\{!self\.syllable\.is_empty\(\)\}_=>false,\}$", b)
-    if not m:
-        raise ExtractError("Hsu::is_hsu_end_key: unexpected body shape")
-    hsu_end = [cix[x.split("::")[1]] for x in m.group(1).split('|')]
-    if _ws(fn_body(inh, "has_initial_or_medial")) != "self.syllable.has_initial()||self.syllable.has_medial()":
-        raise ExtractError("Hsu::has_initial_or_medial changed")
-    kp = fn_body(impl, "key_press")
-    # end-key branch = first block of `if self.is_hsu_end_key(key) { … } else { … }`
-    m = re.match(r"\s*if\s+self\.is_hsu_end_key\(key\)\s*\{", kp)
-    if not m:
-        raise ExtractError("Hsu::key_press: unexpected head")
-    i = kp.find('{', m.start())
-    j = balanced(kp, i)
-    end_branch, rest = kp[i + 1:j - 1], kp[j:]
-    m = re.match(r"\s*else\s*\{", rest)
-    if not m:
-        raise ExtractError("Hsu::key_press: else branch not found")
-    i2 = rest.find('{')
-    else_branch = rest[i2 + 1:balanced(rest, i2) - 1]
-    hsu_rw = _end_rewrites(end_branch, bx)
-    tb, _, _ = _match_block(end_branch, r"match\s+key\.code\s*\{")
-    hsu_tone = _tone_keys("matchkey.code{" + tb + "}", "KeyCode", cix, bx)
-    body, _, _ = _match_block(else_branch, r"let\s+bopomofo\s*=\s*match\s+key\.code\s*\{")
-    hsu_keys, default = [], None
-    for pat, expr in parse_arms(body):
-        if pat == '_':
-            default = _ws(expr)
-            continue
-        c = _cond_arm(bx, expr)
-        if c is None or c[0] not in (0, 1, 2):
-            raise ExtractError(f"Hsu: unexpected key arm {pat} => {expr[:60]!r}")
-        hsu_keys.append((cix[pat.split("::")[1]],) + c)
-    if default != "returnKeyBehavior::NoWord":
-        raise ExtractError("Hsu: default arm changed")
-    hsu_alt = _alt_table(inh, bx)
+    # ---- the three 26-key layouts: end keys, tone keys, end-key rewrites, key table, ALT_TABLE
+    def layout26(fname, ty, enum, ix, conds, has_alt, has_rewrites):
+        raw = read(f"src/editor/zhuyin_layout/{fname}.rs")
+        shas.append(sha(raw))
+        src = strip_comments(raw)
+        impl = _check_common(src, ty, has_alt=has_alt)
+        inh = block_after(src, r"impl\s+" + ty + r"\s*\{")
+        m = re.search(r"((?:" + enum + r"::\w+\|?)+)=>\{?!self\.\w+\.is_empty\(\)\}?", _ws(inh))
+        if not m:
+            raise ExtractError(f"{ty}: end-key list not found")
+        end = [ix[x.split("::")[1]] for x in m.group(1).strip('|').split('|')]
+        kp = fn_body(impl, "key_press")
+        m = re.search(r"\bif\s+self\.\w*end_key\w*\([^)]*\)\s*\{", kp)
+        if not m:
+            raise ExtractError(f"{ty}::key_press: end-key branch not found")
+        i = kp.find('{', m.end() - 1)
+        end_branch = kp[i + 1:balanced(kp, i) - 1]
+        tone = [(ix[k], bx[t]) for k, t in re.findall(enum + r"::(\w+)=>self\.\w+\.update\(Bopomofo::(TONE\d)\)", _ws(end_branch))]
+        if len(tone) < 4:
+            raise ExtractError(f"{ty}: tone-key arms not found")
+        rw = _end_rewrites(end_branch, bx) if has_rewrites else []
+        if has_rewrites and not rw:
+            raise ExtractError(f"{ty}: end-key rewrites not found")
+        keys = []
+        for pat, expr in _table_block(kp[kp.find(end_branch) + len(end_branch):], enum + r"::\w+$", 20):
+            if pat == '_':
+                continue
+            c = _cond_arm(bx, expr)
+            if c is None:
+                c = (9, 0, 0)
+            if c[0] not in conds:
+                raise ExtractError(f"{ty}: unexpected key arm {pat} => {expr[:60]!r}")
+            keys.append((ix[pat.split("::")[1]],) + c)
+        return end, tone, rw, keys, (_alt_table(inh, bx) if has_alt else [])
 
-    # ---- ET26
-    raw = read("src/editor/zhuyin_layout/et26.rs")
-    shas.append(sha(raw))
-    src = strip_comments(raw)
-    impl = _check_common(src, "Et26", has_alt=True)
-    inh = block_after(src, r"impl\s+Et26\s*\{")
-    et26_end = _end_keys(inh, "is_end_key", "KeyCode", cix)
-    if _ws(fn_body(inh, "has_initial_or_medial")) != "self.syllable.has_initial()||self.syllable.has_medial()":
-        raise ExtractError("Et26::has_initial_or_medial changed")
-    kp = fn_body(impl, "key_press")
-    m = re.match(r"\s*if\s+self\.is_end_key\(key\.code\)\s*\{", kp)
-    if not m:
-        raise ExtractError("Et26::key_press: unexpected head")
-    i = kp.find('{', m.start())
-    j = balanced(kp, i)
-    end_branch, rest = kp[i + 1:j - 1], kp[j:]
-    i2 = rest.find('{')
-    else_branch = rest[i2 + 1:balanced(rest, i2) - 1]
-    et26_rw = _end_rewrites(end_branch, bx)
-    tb, _, _ = _match_block(end_branch, r"match\s+key\.code\s*\{")
-    et26_tone = _tone_keys("matchkey.code{" + tb + "}", "KeyCode", cix, bx)
-    body, _, _ = _match_block(else_branch, r"let\s+bopomofo\s*=\s*match\s+key\.code\s*\{")
-    et26_keys, default = [], None
-    for pat, expr in parse_arms(body):
-        if pat == '_':
-            default = _ws(expr)
-            continue
-        c = _cond_arm(bx, expr)
-        if c is None or c[0] not in (0, 1):
-            raise ExtractError(f"Et26: unexpected key arm {pat} => {expr[:60]!r}")
-        et26_keys.append((cix[pat.split("::")[1]],) + c)
-    if default != "returnKeyBehavior::NoWord":
-        raise ExtractError("Et26: default arm changed")
-    et26_alt = _alt_table(inh, bx)
-
-    # ---- DaChen CP26
-    raw = read("src/editor/zhuyin_layout/dc26.rs")
-    shas.append(sha(raw))
-    src = strip_comments(raw)
-    impl = _check_common(src, "DaiChien26", has_alt=False)
-    inh = block_after(src, r"impl\s+DaiChien26\s*\{")
-    dc_end = _end_keys(inh, "is_end_key", "KeyIndex", iix)
-    if _ws(fn_body(inh, "has_initial_or_medial")) != "self.syllable.has_initial()||self.syllable.has_medial()":
-        raise ExtractError("DaiChien26::has_initial_or_medial changed")
-    if _ws(fn_body(src, "default_or_alt")) != "matchsource{None=>default,Some(src)=>{ifsrc==default{alt}else{default}}}":
-        raise ExtractError("default_or_alt changed")
-    kp = fn_body(impl, "key_press")
-    m = re.match(r"\s*if\s+self\.is_end_key\(key\.index\)\s*\{", kp)
-    if not m:
-        raise ExtractError("DaiChien26::key_press: unexpected head")
-    i = kp.find('{', m.start())
-    j = balanced(kp, i)
-    end_branch, rest = kp[i + 1:j - 1], kp[j:]
-    tb, _, _ = _match_block(end_branch, r"match\s+key\.index\s*\{")
-    dc_tone = _tone_keys("matchkey.index{" + tb + "}", "KeyIndex", iix, bx)
-    if not _ws(end_branch).endswith("returnKeyBehavior::Commit;"):
-        raise ExtractError("DaiChien26: end-key branch changed")
-    body, _, e = _match_block(rest, r"let\s+bopomofo\s*=\s*match\s+key\.index\s*\{")
-    dc_keys, default = [], None
-    for pat, expr in parse_arms(body):
-        if pat == '_':
-            default = _ws(expr)
-            continue
-        c = _cond_arm(bx, expr)
-        if c is None:
-            c = (9, 0, 0)
-        dc_keys.append((iix[pat.split("::")[1]],) + c)
-    if default != "returnKeyBehavior::KeyError":
-        raise ExtractError("DaiChien26: default arm changed")
-    if _ws(rest[e:]).lstrip(';') != "self.syllable.update(bopomofo);KeyBehavior::Absorb":
-        raise ExtractError("DaiChien26: tail changed")
+    hsu_end, hsu_tone, hsu_rw, hsu_keys, hsu_alt = layout26("hsu", "Hsu", "KeyCode", cix, (0, 1, 2), True, True)
+    et26_end, et26_tone, et26_rw, et26_keys, et26_alt = layout26("et26", "Et26", "KeyCode", cix, (0, 1), True, True)
+    dc_end, dc_tone, _, dc_keys, _ = layout26("dc26", "DaiChien26", "KeyIndex", iix, (0, 1, 3, 4, 9), False, False)
     special = [k for k, c, _, _ in dc_keys if c == 9]
     if special != [iix["K21"], iix["K44"]]:
         raise ExtractError(f"DaiChien26: hand-modelled keys are no longer K21, K44: {special}")
